@@ -119,6 +119,24 @@ ID_SETS = {
     "speaker": ["spk1_ab", "spk1_a", "k1", "spk1_abc"],  # prefix of [0]; infix of [0]; extension of [0]
 }
 
+# LAYOUT NOTE. Maps that mix what the command accepts utterance by utterance: "The output is independent of
+# --num-workers" and "re-running the same command afterwards leaves a directory whose files are identical to those of an
+# uninterrupted run" are stated for every map, and which process computes which utterance AFTER which other utterance is
+# exactly what --num-workers and the kill point change (w = 0: one process sees the whole map in order; w = 2: the
+# workers see alternate utterances; a re-run: a fresh process starts in the middle). So the fixtures below put
+# neighbours of different storage layout ((S,) / (1, S) mono with --channel left at its default; (1, S) / (2, S) / (3, S)
+# with --channel c), different container (npy, wav, pt, hdf5, npz) and very different length next to one another: any
+# per-process state that one utterance leaves behind (a remembered channel / layout / file type / buffer size) then
+# gives a history-dependent result or a history-dependent abort.  "container:layout" per utterance, map order.
+MIXED = {
+    # name: (config, layouts, lengths, --channel or None)
+    "mono_1xS_S": ("raw_preemph_dither", ["npy:1xS", "wav:S", "pt:1xS", "hdf5:S"], [700, 250, 2400, 330], None),
+    "chan0_CxS_1xS": ("stft_dither_deltas", ["npy:2xS", "pt:1xS", "hdf5:3xS", "npz:1xS"], [900, 260, 1500, 420], 0),
+    "mono_S_1xS": ("stft_dither_preemph", ["wav:S", "npz:1xS", "npy:S", "hdf5:1xS"], [300, 2000, 410, 777], None),
+    "chan1_CxS": ("raw_dither_preemph_dither", ["npy:2xS", "pt:3xS", "hdf5:2xS", "npz:4xS"], [1200, 222, 640, 350], 1),
+    "chan2_CxS": ("raw_preemph_dither_preemph", ["hdf5:3xS", "npy:4xS", "pt:3xS", "npy:5xS"], [256, 1024, 255, 513], 2),
+}
+
 # ---------------------------------------------------------------------------------------------
 # the child process
 # ---------------------------------------------------------------------------------------------
@@ -229,19 +247,67 @@ def _case_ids(case):
     return list(ids) if ids else IDS[: case["n_utts"]]
 
 
+def _case_layouts(case):
+    """per-utterance "container:layout" (see LAYOUT NOTE in the module docstring); None = the historical (S,) fixtures"""
+    lay = case.get("layouts")
+    return tuple(lay) if lay else None
+
+
 def _fixture_key(case):
-    return (case["config"], case["n_utts"], case["data_seed"], case["seed"], tuple(_case_ids(case)))
+    lay, lens, chan = _case_layouts(case), case.get("lengths"), case.get("channel")
+    extra = () if (lay is None and lens is None and chan is None) else (lay, tuple(lens) if lens else None, chan)
+    return (case["config"], case["n_utts"], case["data_seed"], case["seed"], tuple(_case_ids(case))) + extra
+
+
+def _write_signal(path_stem, container, layout, utt, sig):
+    """Stores `sig` ((S,) or (C, S) int16 values) in `container`; returns the path. read_signal hands the array back with
+    the stored shape for npy / pt / hdf5 / npz (hdf5 and npz are indexed by the utterance id, which is what the command
+    passes as key); a mono wav comes back as (S,)."""
+    import torch
+
+    if container == "wav":
+        if sig.ndim != 1:
+            raise ValueError("wav fixtures are mono (S,) only")
+        path = path_stem + ".wav"
+        w = wave.open(path, "wb")
+        w.setnchannels(1)
+        w.setsampwidth(2)
+        w.setframerate(8000)
+        w.writeframes(sig.tobytes())
+        w.close()
+    elif container == "pt":
+        path = path_stem + ".pt"
+        torch.save(torch.from_numpy(sig.astype(np.float32)), path)
+    elif container == "npy":
+        path = path_stem + ".npy"
+        np.save(path, sig.astype(np.float64) * 0.5)
+    elif container == "npz":
+        path = path_stem + ".npz"
+        np.savez(path, **{utt: sig.astype(np.float32) * 0.25})
+    elif container == "hdf5":
+        import h5py
+
+        path = path_stem + ".hdf5"
+        with h5py.File(path, "w") as f:
+            f.create_dataset(utt, data=sig.astype(np.float64) * 2.0)
+    else:
+        raise ValueError(f"unknown container {container!r}")
+    return path
 
 
 class _Fixture(object):
     def __init__(self, case, root):
-        import torch
-
         self.config, self.n, self.data_seed, self.seed = _fixture_key(case)[:4]
         self.dir = tempfile.mkdtemp(prefix="fx_", dir=root)
         self.ids = _case_ids(case)
         if len(self.ids) != self.n or len(set(self.ids)) != self.n:
             raise ValueError(f"case needs {self.n} distinct ids, got {self.ids}")
+        self.layouts = _case_layouts(case)
+        self.lengths = case.get("lengths")
+        self.channel = case.get("channel")
+        for what in (self.layouts, self.lengths):
+            if what is not None and len(what) != self.n:
+                raise ValueError(f"case needs {self.n} layouts / lengths, got {what}")
         raw = os.path.join(self.dir, "raw")
         os.makedirs(raw)
         fmts = ["npy", "wav", "pt", "npy"]
@@ -249,21 +315,14 @@ class _Fixture(object):
         for i, u in enumerate(self.ids):
             rng = _common.make_rng(self.data_seed, f"c10:{u}:{i}")
             n = int(rng.integers(400, 900))
-            sig = rng.integers(-(2**15), 2**15, n).astype(np.int16)
-            if fmts[i % 4] == "wav":
-                path = os.path.join(raw, f"s{i}.wav")
-                w = wave.open(path, "wb")
-                w.setnchannels(1)
-                w.setsampwidth(2)
-                w.setframerate(8000)
-                w.writeframes(sig.tobytes())
-                w.close()
-            elif fmts[i % 4] == "pt":
-                path = os.path.join(raw, f"s{i}.pt")
-                torch.save(torch.from_numpy(sig.astype(np.float32)), path)
-            else:
-                path = os.path.join(raw, f"s{i}.npy")
-                np.save(path, sig.astype(np.float64) * 0.5)
+            container, layout = (self.layouts[i].split(":") if self.layouts else (fmts[i % 4], "S"))
+            if self.lengths:
+                n = int(self.lengths[i])
+            if layout == "S":
+                sig = rng.integers(-(2**15), 2**15, n).astype(np.int16)
+            else:  # "CxS": C channels, every channel its own samples (a wrong channel is a wrong file)
+                sig = rng.integers(-(2**15), 2**15, (int(layout[: -len("xS")]), n)).astype(np.int16)
+            path = _write_signal(os.path.join(raw, f"s{i}"), container, layout, u, sig)
             lines.append(f"{u} {path}\n")
         self.map = os.path.join(self.dir, "map")
         with open(self.map, "w") as f:
@@ -271,6 +330,16 @@ class _Fixture(object):
         self._counter = 0
         self.reference = None  # {file name: tensor}
         self.reference_error = None
+
+    def describe(self):
+        """the part of the input that matters for per-process state, for messages"""
+        if self.layouts is None and self.channel is None and self.lengths is None:
+            return ""
+        txt = "map layouts " + (", ".join(self.layouts) if self.layouts else "all (S,)")
+        if self.lengths:
+            txt += f", lengths {list(self.lengths)}"
+        txt += f", --channel {self.channel}" if self.channel is not None else ", --channel left at its default"
+        return txt + ": "
 
     def new_run_dir(self):
         self._counter += 1
@@ -289,6 +358,8 @@ class _Fixture(object):
             args += ["--postprocess", json.dumps(post)]
         if workers:
             args += ["--num-workers", str(workers)]
+        if self.channel is not None:
+            args.append(f"--channel={self.channel}")
         return args
 
 
@@ -394,7 +465,8 @@ def _ensure_reference(fx):
     got = _load_dir(rundir)
     want = sorted(u + ".pt" for u in fx.ids)
     if rc != 0 or sorted(got) != want or any(isinstance(v, Exception) for v in got.values()):
-        fx.reference_error = f"uninterrupted run failed: rc={rc} files={sorted(got)} stderr: {tail}"
+        last = [ln for ln in tail.splitlines() if ln.strip()][-1:]  # the exception line of the traceback
+        fx.reference_error = f"uninterrupted run failed: rc={rc}, wrote {sorted(got)}, stderr ends: {last[0].strip() if last else ''}"
         return
     if sorted(_manifest_lines(rundir)) != sorted(fx.ids):
         fx.reference_error = f"uninterrupted run's manifest is {_manifest_lines(rundir)}, expected {fx.ids}"
@@ -402,22 +474,68 @@ def _ensure_reference(fx):
     fx.reference = got
 
 
+def _complete(fx, rundir, rc):
+    """the run ended with status 0, every utterance has a loadable file and a manifest line"""
+    got = _load_dir(rundir)
+    return (
+        rc == 0
+        and sorted(got) == sorted(u + ".pt" for u in fx.ids)
+        and not any(isinstance(v, Exception) for v in got.values())
+        and sorted(set(_manifest_lines(rundir))) == sorted(fx.ids)
+    )
+
+
+def _scenario_without_reference(fx, case):
+    """The uninterrupted --num-workers 0 run of this fixture's command did not complete (every fixture is a map the
+    unchanged command processes). The case is a failure whatever happens next; its own run(s) are still made, because
+    "independent of --num-workers" / "re-running ... leaves a directory ... identical to those of an uninterrupted run"
+    are broken in the sharpest way when the SAME command completes with another worker count / after a kill and a
+    re-run: then the worker count or the kill point decides whether the command gets through."""
+    rundir = fx.new_run_dir()
+    stages = case.get("stages", [])
+    if not stages:
+        rc, lines, tail = _run_child(fx, rundir, case["workers"], None, "fresh")
+        if _complete(fx, rundir, rc):
+            return [
+                (
+                    "C10.workers.identical",
+                    f"{fx.describe()}whether the command gets through depends on --num-workers: with {case['workers']} it completes "
+                    f"(all {fx.n} files and manifest lines), with 0 the {fx.reference_error}",
+                )
+            ]
+        return [("C10.resume.identical", f"{fx.describe()}{fx.reference_error}; the --num-workers {case['workers']} run does not complete either (rc={rc}; stderr: {tail})")]
+    rc, tail = None, ""
+    for si, stage in enumerate(list(stages) + [None]):
+        workers = case["workers"] if stage is not None else case.get("resume_workers", case["workers"])
+        rc, lines, tail = _run_child(fx, rundir, workers, stage, f"s{si}")
+    if _complete(fx, rundir, rc):
+        rw = case.get("resume_workers", case["workers"])
+        return [
+            (
+                "C10.resume.identical",
+                f"{fx.describe()}the kill point / worker count decides how far the command gets: killed at {stages} (--num-workers "
+                f"{case['workers']}) and re-run (--num-workers {rw}) it completes (all {fx.n} files and manifest lines), but the {fx.reference_error}",
+            )
+        ]
+    return [("C10.resume.identical", f"{fx.describe()}{fx.reference_error}; after {stages} the re-run does not complete either (rc={rc}; stderr: {tail})")]
+
+
 def _scenario(fx, case):
     """Runs one case (kill stages + final resume, or a fresh run with workers). Returns (failures, info)."""
     fails = []
     info = {"kills": 0, "listed_at_kill": [], "resaved": None}
     if fx.reference_error:
-        return [("C10.resume.identical", fx.reference_error)], info
+        return _scenario_without_reference(fx, case), info
     ref = fx.reference
     rundir = fx.new_run_dir()
     stages = case.get("stages", [])
     if not stages:
         rc, lines, tail = _run_child(fx, rundir, case["workers"], None, "fresh")
-        msg = _compare_dirs(_load_dir(rundir), ref) if rc == 0 else f"exit status {rc}; stderr: {tail}"
+        msg = _compare_dirs(_load_dir(rundir), ref) if rc == 0 else f"exit status {rc} where the --num-workers 0 run of the same command completes; stderr: {tail}"
         if not msg and sorted(_manifest_lines(rundir)) != sorted(fx.ids):
             msg = f"manifest {_manifest_lines(rundir)}"
         if msg:
-            fails.append(("C10.workers.identical", f"--preprocess {json.dumps(CONFIGS[fx.config][1])}: --num-workers {case['workers']} vs 0: {msg}"))
+            fails.append(("C10.workers.identical", f"{fx.describe()}--preprocess {json.dumps(CONFIGS[fx.config][1])}: --num-workers {case['workers']} vs 0: {msg}"))
         return fails, info
     listed_before = []  # ids listed before the run about to start
     stats_before = {}
@@ -448,7 +566,7 @@ def _scenario(fx, case):
         if stage is not None:
             info["kills"] += 1
             if not any(ln.startswith("KILL") for ln in lines):
-                fails.append(("C10.kill_unreached", f"stage {si} {stage}: kill point never fired (rc={rc}); stderr: {tail}"))
+                fails.append(("C10.kill_unreached", f"{fx.describe()}stage {si} {stage}: kill point never fired (rc={rc}); stderr: {tail}"))
             ended = _log_ids(lines, "SAVE_END")
             began = _log_ids(lines, "SAVE_BEGIN")
             k = int(stage.get("k", 0))
@@ -476,13 +594,13 @@ def _scenario(fx, case):
             info["listed_at_kill"].append(list(listed))
         else:
             if rc != 0:
-                fails.append(("C10.resume.exit", f"final run exit status {rc}; stderr: {tail}"))
+                fails.append(("C10.resume.exit", f"{fx.describe()}after {stages}: final run exit status {rc} (the uninterrupted run of the same command completes); stderr: {tail}"))
             msg = _compare_dirs(on_disk, ref)
             if not msg and sorted(set(listed)) != sorted(fx.ids):
                 msg = f"manifest after the final run lists {listed}, expected every utterance of {fx.ids}"
             if msg:
                 wtxt = "" if workers == case["workers"] == 0 else f" (killed run(s) --num-workers {case['workers']}, re-run --num-workers {workers})"
-                fails.append(("C10.resume.identical", f"--preprocess {json.dumps(CONFIGS[fx.config][1])}: after {stages} and a re-run{wtxt}: {msg}"))
+                fails.append(("C10.resume.identical", f"{fx.describe()}--preprocess {json.dumps(CONFIGS[fx.config][1])}: after {stages} and a re-run{wtxt}: {msg}"))
         listed_before = [u for u in listed if u in fx.ids]
         stats_before = {}
         for u in listed_before:
@@ -511,6 +629,14 @@ def _plan(tier, seed):
 
     def base(config, n, idset):
         return {"config": config, "n_utts": n, "ids": ID_SETS[idset][:n]}
+
+    def mixed(name, idset, mrng):
+        config, layouts, lengths, channel = MIXED[name]
+        b = dict(base(config, len(layouts), idset), data_seed=int(mrng.integers(0, 2**31)), seed=int(mrng.integers(0, 2**20)))
+        b.update(layouts=list(layouts), lengths=list(lengths))
+        if channel is not None:
+            b["channel"] = channel
+        return b
 
     def mk(b, stages, workers=0, resume_workers=None):
         c = dict(b)
@@ -570,6 +696,15 @@ def _plan(tier, seed):
             mk(X4, [{"point": "before_save", "k": 3, "kind": H}], workers=2, resume_workers=0),
             mk(X2, [{"point": "after_save", "k": 1, "kind": S}]),
             mk(X2, [], workers=1),
+        ]
+        # maps mixing layouts / containers / lengths (LAYOUT NOTE): worker-count independence and resume identity, first
+        mrng = _common.make_rng(seed, "c10:mixed:" + tier)
+        M1, M2 = mixed("mono_1xS_S", "speaker", mrng), mixed("chan0_CxS_1xS", "unpadded", mrng)
+        cases[0:0] = [
+            mk(M1, [], workers=2),
+            mk(M1, [{"point": "after_save", "k": 1, "kind": H}], workers=0, resume_workers=2),
+            mk(M2, [{"point": "before_save", "k": 2, "kind": S}], workers=2, resume_workers=0),
+            mk(M2, [], workers=2),
         ]
     else:
         n = 4
@@ -633,6 +768,19 @@ def _plan(tier, seed):
         for kind in ("hard", "soft"):
             for pt in _points(3):
                 cases.append(mk(A3, [dict(pt, kind=kind)]))
+        # maps mixing layouts / containers / lengths (LAYOUT NOTE): every fixture with workers {1, 2}, a kill after each
+        # utterance re-run in one process, and kills with worker processes / another worker count on the re-run; first
+        mrng = _common.make_rng(seed, "c10:mixed:" + tier)
+        mixed_cases = []
+        for j, name in enumerate(MIXED):
+            Mx = mixed(name, list(ID_SETS)[j % 3], mrng)
+            for w in (2, 1):
+                mixed_cases.append(mk(Mx, [], workers=w))
+            for k in (1, 2, 3):
+                mixed_cases.append(mk(Mx, [{"point": ("after_save", "before_save", "mid_save")[(j + k) % 3], "k": k, "kind": ("hard", "soft")[(j + k) % 2]}]))
+            mixed_cases.append(mk(Mx, [{"point": "after_save", "k": 1 + j % 3, "kind": "hard"}], workers=0, resume_workers=2))
+            mixed_cases.append(mk(Mx, [{"point": "mid_manifest", "k": 1 + (j + 1) % 3, "kind": "soft"}], workers=2, resume_workers=0))
+        cases[0:0] = mixed_cases
     return cases
 
 
